@@ -74,10 +74,15 @@ Definition vadd_op (p : params) (s : vstate) (id : Z) (v : vec) : vstate * Z :=
                | _ => []
                end in
            let e := {| e_id := id; e_vec := w; e_code := code |} in
+           (* re-adding a removed id is an update: the stale soft-deleted entry is dropped and the
+              bit cleared before the new entry is appended (fix: commit "re-adding a removed id") *)
+           let readd := memz id (st_deleted s) in
+           let lists := if readd then map (filter (fun x => negb (e_id x =? id))) (st_lists s) else st_lists s in
+           let deleted := if readd then filter (fun x => negb (x =? id)) (st_deleted s) else st_deleted s in
            ({| st_trained := st_trained s; st_centroids := st_centroids s;
                st_codebooks := st_codebooks s;
-               st_lists := app_nth (Z.to_nat li) e (st_lists s);
-               st_deleted := st_deleted s |}, E_OK)
+               st_lists := app_nth (Z.to_nat li) e lists;
+               st_deleted := deleted |}, E_OK)
        end.
 
 Definition vremove_op (s : vstate) (id : Z) : vstate * Z :=
